@@ -1,18 +1,32 @@
+import re
 from checks.generic import standard
+
+_WHAT = "the observed answer violates the property predicate as evaluated in Coq: a weak, unknown, unparsable or absent key was answered with something other than a client error (a certificate, a 5xx, a panic)"
+
+def _path(line):
+    m = re.search(r"path=(\S+)", line)
+    return m.group(1) if m else "?"
 
 def run(ctx):
     return standard(ctx,
         props=[("Props.C10", ["c10_strong", "c10_strong_complete", "c10_pipeline", "c10_weak_is_client_error",
                               "c10_decoder_total", "c10_old_rsa_refuted",
                               "c10_pipeline_parse_explicit", "c10_single_parse_paths", "c10_disagreeing_parsers_refuted",
-                              "c10_weak_is_client_error_every_path",
+                              "c10_weak_is_client_error_every_path", "c10_weak_is_client_error_one_configuration", "c10_pipeline_every_configuration", "c10_deny_before_strength_refuted",
+                              "c10_pem_walk_total", "c10_pem_walk_sound", "c10_pem_skip_unguarded_refuted", "c10_role_parameter",
                               "c10_claim_access_total", "c10_claim_access_sound", "c10_unguarded_index_refuted", "c10_header_assertion"])],
-        harness=("TestVerif_C10", ["kmd/common.go", "kmd/creds.go", "kmd/consts.go", "kmd/c10.go", "kmd/c11.go", "kmd/tokens.go", "kmd/c04.go", "kmd/c10_tokens.go"]),
+        harness=("TestVerif_C10", ["kmd/common.go", "kmd/creds.go", "kmd/consts.go", "kmd/c10.go", "kmd/c11.go", "kmd/tokens.go", "kmd/c04.go", "kmd/c10_tokens.go", "kmd/c10_config.go"]),
         cases=("CasesC10.v", [("c10_pred_mismatches", "ValidatePublicKeyStrength = model validate on every RSA size 1..4200, curves, Ed25519, others"),
                               ("c10_pipeline_mismatches", "status class of the six issuing paths = model pipeline on the key corpus"),
                               ("c10_file_mismatches", "SSH key files of the authorized_keys grammar (pairs of keys): status class = model pipeline2 on the key the real validator approved", "CasesC10F.idx"),
                               ("c10_agree_mismatches", "hypothesis of c10_pipeline_parse_explicit: the key inside every returned SSH certificate is the key the real validator approved", "CasesC10F.idx"),
+                              ("c10_cfg_mismatches", "key deny list {one foreign fingerprint, several + malformed entries, fingerprints of strong corpus keys} x weak / unknown / unparsable key corpus (+ strong controls) x the six issuing paths: status class = model pipeline_cfg (look-up after the strength check; per path observed whether it consults the list)", "CasesC10G.idx"),
+                              ("c10_pem_mismatches", "PEM structure (first block of another type, several blocks, bytes after the last END line, headers, degenerate texts) at the cloud-role and X.509 paths: status class / panic = model pem_pipeline on the block list the real pem.Decode delivers", "CasesC10P.idx"),
+                              ("c10_param_mismatches", "pubkey form parameter of the role / refresh paths (encodings: padding, alphabets, white space, repeated values, DER with trailing / concatenated / truncated content): status class = model param_pipeline on what base64 and the DER parser deliver for each value", "CasesC10R.idx"),
                               ("c10_claim_mismatches", "getAuthInfoFromAuthJWT on well-signed tokens with dropped / type-confused claims: accepted (user, level, expiry, issued-at) or refused = model get_auth_info on the same payload", "CasesC10J.idx")], "CasesC10.idx"),
+        model_oracles=[("c10_cfg_violating", lambda line: "C10:model-oracle:weak-not-client-error:%s:deny-list-configured" % _path(line), _WHAT, "CasesC10G.idx"),
+                       ("c10_param_violating", lambda line: "C10:model-oracle:malformed-parameter-not-client-error:%s" % _path(line), _WHAT, "CasesC10R.idx"),
+                       ("c10_pem_violating", lambda line: "C10:model-oracle:malformed-pem-not-client-error:%s" % _path(line), _WHAT, "CasesC10P.idx")],
         trusted=["key parsers (x509.ParsePKIXPublicKey, ssh.ParseAuthorizedKey, pem) run in front of the model; the model starts at the parsed key description (algorithm, modulus bits, exponent, curve)",
                  "fake STS endpoint for the cloud-role path (harness verifFakeSTS)"],
         assumptions=["absence of panics in library parsers is tested (mutation fuzzing through every path), not proved"],
